@@ -932,7 +932,11 @@ def ruleDurationInterval(
 ) -> Optional[Interval]:
     # 3 days 15-18 Nov
     delta = interval.t_to.dt - interval.t_from.dt
-    dur_delta = _duration_to_relativedelta(dur)
+    try:
+        dur_delta = _duration_to_relativedelta(dur)
+    except (OverflowError, ValueError):
+        # an amount no calendar arithmetic can represent
+        return None
     if delta.days == dur_delta.days:
         return interval
     return None
@@ -953,8 +957,8 @@ def ruleTimeDuration(
         DurationUnit.WEEKS,
         DurationUnit.MONTHS,
     ):
-        delta = _duration_to_relativedelta(dur)
         try:
+            delta = _duration_to_relativedelta(dur)
             end_ts = t.dt + delta
         except (OverflowError, ValueError):
             # the end lies beyond what a datetime can represent
@@ -964,8 +968,8 @@ def ruleTimeDuration(
         return Interval(t_from=t, t_to=end)
 
     if dur.unit in (DurationUnit.HOURS, DurationUnit.MINUTES):
-        delta = _duration_to_relativedelta(dur)
         try:
+            delta = _duration_to_relativedelta(dur)
             end_ts = t.dt + delta
         except (OverflowError, ValueError):
             return None
